@@ -8,6 +8,7 @@
 //      … oob@k   (the k-th destination index maps outside the source shape: write not executed)
 // Slice encodings as in the C05 harness: packed (1 entry: all 14 None-patterns; 2 entries: int, ellipsis, a:b:c, N:N:c),
 // dynP (run-time list of either, one None-pattern per request), dynA (all-int triples).
+// Built as two TUs: -DC20_LAY=0 row-major source, -DC20_LAY=1 column-major source (compile time).
 #include "c05_common.hpp"
 #include "nmtools/array/view/mutable_reshape.hpp"
 #include "nmtools/array/view/mutable_flatten.hpp"
@@ -140,7 +141,13 @@ static std::string serve(const std::string& kind, const uvec& shape, int marker,
 std::string handle(const std::string& op, const Args& a) {
     if (op!="mviewall") return "unknown-op";
     auto kind = get(a,"kind"); auto lay = get(a,"lay"); auto shape = nats(a,"shape"); int marker = (int)integer(a,"v");
+#ifndef C20_LAY
+#define C20_LAY 0
+#endif
+#if C20_LAY == 0
     if (lay=="r") return serve<row_t>(kind, shape, marker, a);
+#else
     if (lay=="c") return serve<col_t>(kind, shape, marker, a);
+#endif
     return "bad-args";
 }
